@@ -183,8 +183,11 @@ fn enc_checks(prop: &str, c: &EncCase, ctx: Option<&Ctx>) -> Option<(&'static st
             ("enc", d, v)
         }
         "C14" => {
+            if c.list == 0 || c.modes == 0 {
+                return None;
+            }
             let s = std::str::from_utf8(&c.data).ok()?.to_string();
-            let sc = StrCase { s, stratum: "fuzz" };
+            let sc = StrCase { s, cfg: if c.config_is_default() && c.macros { None } else { Some((c.list, c.modes, c.macros)) }, stratum: "fuzz" };
             let v = props::c14::check(&sc);
             return Some(("str", AnyCase::Str(sc), v));
         }
